@@ -447,6 +447,13 @@ fn validate(ctx: &Context<impl Channel>) -> Result<(), Error> {
             return Err(CircuitError::InvalidInput(w, *inst).into());
         }
     }
+    // Circuit::validate() compares against `max_reg_count.saturating_sub(1)` and therefore lets
+    // register 0 through when there are no registers at all.
+    for output_reg in &circ.output_regs {
+        if output_reg.0 as usize >= circ.max_reg_count {
+            return Err(CircuitError::InvalidOutput(*output_reg).into());
+        }
+    }
     let mut is_output_party = vec![false; p_max];
     for output_party in p_out {
         if *output_party >= p_max || is_output_party[*output_party] {
